@@ -494,4 +494,73 @@ example : (processStatement RemoveAssertions.matcher true (.callStmt (.call (.va
   simp [processStatement, RemoveAssertions.matcher, RemoveAssertions.matchesPrefix, isUsed, preserveArgumentsSideEffects,
     argCandidates, expressionsAsStatement, asStatements]
 
+/-! ## whole-rule examples, evaluated by the kernel on the models the driver runs
+
+`a` = the statement `assert()`, `gone` = what it becomes (`do end`). At every scope kind the
+occurrence under the shadowing binder is kept and the one after the scope is removed. -/
+section whole
+private abbrev a : Stmt := .callStmt (.call (.var "assert") none .tuple [])
+private abbrev gone : Stmt := .doBlock (.mk [] none)
+private abbrev shadow : Stmt := .localAssign .loc [.mk "assert" none] [.var "f"]
+private abbrev run (ss : List Stmt) : Block := (RemoveAssertions.apply true (.mk ss none)).1
+
+-- do
+example : run [.doBlock (.mk [shadow, a] none), a] = .mk [.doBlock (.mk [shadow, a] none), gone] none := by rfl
+-- a `local` after a use in the same block
+example : run [a, shadow, a] = .mk [gone, shadow, a] none := by rfl
+-- while
+example : run [.while_ .true (.mk [shadow, a] none), a] = .mk [.while_ .true (.mk [shadow, a] none), gone] none := by rfl
+-- repeat: the condition is inside the scope
+example : run [.repeat_ (.mk [shadow] none) (.call (.var "assert") none .tuple [.true]), a]
+    = .mk [.repeat_ (.mk [shadow] none) (.call (.var "assert") none .tuple [.true]), gone] none := by rfl
+-- numeric for / generic for
+example : run [.nfor (.mk "assert" none) (.num 0) (.num 0) none (.mk [a] none), a]
+    = .mk [.nfor (.mk "assert" none) (.num 0) (.num 0) none (.mk [a] none), gone] none := by rfl
+example : run [.gfor [.mk "k" none, .mk "assert" none] [.var "it"] (.mk [a] none), a]
+    = .mk [.gfor [.mk "k" none, .mk "assert" none] [.var "it"] (.mk [a] none), gone] none := by rfl
+-- if branch
+example : run [.ifs [(.true, .mk [shadow, a] none)] (some (.mk [a] none))]
+    = .mk [.ifs [(.true, .mk [shadow, a] none)] (some (.mk [gone] none))] none := by rfl
+-- function parameter, local function (its own name is in scope inside the body), method parameter
+example : run [.localFn .loc "g" (.mk [.mk "assert" none] false none none [] [] (.mk [a] none)), a]
+    = .mk [.localFn .loc "g" (.mk [.mk "assert" none] false none none [] [] (.mk [a] none)), gone] none := by rfl
+example : run [.doBlock (.mk [.localFn .loc "assert" (.mk [] false none none [] [] (.mk [a] none)), a] none), a]
+    = .mk [.doBlock (.mk [.localFn .loc "assert" (.mk [] false none none [] [] (.mk [a] none)), a] none), gone] none := by rfl
+example : run [.function ["obj", "m"] (some "m") (.mk [.mk "assert" none] false none none [] [] (.mk [a] none)), a]
+    = .mk [.function ["obj", "m"] (some "m") (.mk [.mk "assert" none] false none none [] [] (.mk [a] none)), gone] none := by rfl
+-- `local assert = assert(x)`: the initialiser still refers to the global
+example : run [.localAssign .loc [.mk "assert" none] [.call (.var "assert") none .tuple [.var "x"]], a]
+    = .mk [.localAssign .loc [.mk "assert" none] [.var "x"], a] none := by rfl
+-- field / method of another table
+example : run [.callStmt (.call (.field (.var "t") "assert") none .tuple []), .callStmt (.call (.var "o") (some "assert") .tuple [])]
+    = .mk [.callStmt (.call (.field (.var "t") "assert") none .tuple []), .callStmt (.call (.var "o") (some "assert") .tuple [])] none := by rfl
+-- the reserved `select` alias is declared in front of the chunk
+example : (RemoveAssertions.apply true (.mk [.localAssign .loc [.mk "select" none] [.nil]]
+      (some (.ret [.call (.var "assert") none .tuple [.var "x", .var "y"]])))).1
+    = .mk [.localAssign .loc [.mk (reservedName 1) none] [.var "select"], .localAssign .loc [.mk "select" none] [.nil]]
+      (some (.ret [.call (.var (reservedName 1)) none .tuple [.num RemoveAssertions.oneBits, .var "x", .var "y"]])) := by rfl
+-- F18 on the whole rule: `return f(assert())` becomes `return f(nil)`
+example : (RemoveAssertions.apply true (.mk [] (some (.ret [.call (.var "f") none .tuple [.call (.var "assert") none .tuple []]])))).1
+    = .mk [] (some (.ret [.call (.var "f") none .tuple [.nil]])) := by rfl
+-- F30 on the whole rule: `assert(assert(false))` keeps a real assertion
+example : run [.callStmt (.call (.var "assert") none .tuple [.call (.var "assert") none .tuple [.false]])]
+    = .mk [.callStmt (.call (.var "assert") none .tuple [.false])] none := by rfl
+-- F19 on the whole rule: `local DEBUG = {} DEBUG.x()` becomes `local DEBUG = {} (true).x()`
+example : InjectValue.apply "DEBUG" .true
+      (.mk [.localAssign .loc [.mk "DEBUG" none] [.table []], .callStmt (.call (.field (.var "DEBUG") "x") none .tuple [])] none)
+    = .mk [.localAssign .loc [.mk "DEBUG" none] [.table []], .callStmt (.call (.field (.paren .true) "x") none .tuple [])] none := by rfl
+-- … while in expression position the shadowed occurrence is left alone and the global one replaced
+example : InjectValue.apply "DEBUG" .true
+      (.mk [.callStmt (.call (.var "emit") none .tuple [.var "DEBUG"]), .localAssign .loc [.mk "DEBUG" none] [.nil],
+            .callStmt (.call (.var "emit") none .tuple [.var "DEBUG"])] none)
+    = .mk [.callStmt (.call (.var "emit") none .tuple [.true]), .localAssign .loc [.mk "DEBUG" none] [.nil],
+           .callStmt (.call (.var "emit") none .tuple [.var "DEBUG"])] none := by rfl
+-- the defect flags the driver reports for the two witnesses
+example : defects (.removeAssertions true) (.mk [] (some (.ret [.call (.var "f") none .tuple [.call (.var "assert") none .tuple []]])))
+    = ["zero-arg-expr"] := by rfl
+example : defects (.injectGlobalValue "DEBUG" .true)
+      (.mk [.localAssign .loc [.mk "DEBUG" none] [.table []], .callStmt (.call (.field (.var "DEBUG") "x") none .tuple [])] none)
+    = ["shadowed-prefix"] := by rfl
+end whole
+
 end DarkluaModel.C17
